@@ -17,6 +17,8 @@ BUILT = {
          "64-bit collisions excluded by assumption (would be reported with both FENs).", "TLA+ spec (position identity, transpositions in the TLC tree) + replay", "5 C04"),
  "C05": ("model_checking", "A reported PV is a trace of ChessGame.tla: every best move, ponder move and PV line reported by real searches (8 limit modes, every feature switch flipped, a deterministic sweep of the stop moment through node limits 1..n, pre-filled hash tables, drawn roots) is validated by TLC against Legal/Apply (SearchCheck.tla); termination is watched by a watchdog, the caller's position is snapshotted.",
          "Positions are a seeded sample of TLC walk nodes with their game histories; searches are shallow (depth 3-4).", "trace validation of search output against the TLA+ rules", "5 C05"),
+ "C06": ("model_checking", "SearchValue.tla defines the minimax value over ChessRules with the engine's terminal scores; the game tree and scoring rules come from the specification, the leaf numbers from the engine's evaluator, and TLC computes the expected value and the set of moves attaining it for every (root, depth). The engine searches each pair under combinations of the seven sound switches (unsound ones off) and must return exactly that value with an attaining move; with quiescence on the value must agree across the combinations.",
+         "Roots with empty history and clock <= 90; depth <= 2 for all roots, 3 (4 thorough) for sparse roots.", "TLA+ minimax specification evaluated by TLC + comparison with real searches", "5 C06"),
  "C07": ("model_checking", "A verif hook reports every node the search or quiescence search classifies as mate or stalemate; the de-duplicated positions are validated by TLC (Legal(pos) = {} and mate <=> InCheck) for searches under the default configuration and combinations of the seven pruning switches; roots without legal moves must be reported as -mate / draw.",
          "Hook H1 (build tag verif) in alphabeta.go; depth-4 (quick) / depth-5 (thorough) searches.", "hook events validated against the TLA+ rules by TLC", "5 C07"),
  "C08": ("model_checking", "PseudoLegal / NonQuiet / Quiet of ChessRules.tla (both settings of the promotion switch) are the expected sets; batch and phased generation are compared as multisets at every tree node under PV/killer orderings, generator reuse, evasion mode and has-legal-move.",
@@ -29,6 +31,8 @@ BUILT = {
          "Key 0 excluded; ageing < 100 in a row.", "TLA+ model + TLC exhaustive check + replay + trace validation", "5 C11"),
  "C13": ("model_checking", "TimeControl.tla models the clock as a game (remaining' = remaining - budget + increment); TLC enumerates the parameter grid, the driver plays every game with the engine's real budget function (hook wrapper) and TLC validates the recorded games step by step (budget <= remaining, clock never negative). Depth, node, move-time and searchmoves clauses are measured on real searches, the searchmoves/terminal-root expectations come from SearchCheck.tla.",
          "Wall-clock clauses use allowances (250 ms, 300 nodes) and re-measure before reporting.", "TLA+ clock game: TLC grid generation + trace validation; measured searches", "5 C13"),
+ "C14": ("model_checking", "SearchLifecycle.tla models controller, search and timer goroutines at statement granularity (semaphores, stop flag, time limit, shared limits); TLC checks NoCtrlStuck / OneResultEach / OwnStopOnly / NoResultBeforeStop over all interleavings of 3 searches and 5-6 calls. Real controller scripts (the model's counterexamples for the unrepaired code, and seeded random scripts with delays injected at the hooks) run with a watchdog on every call; every recorded run is validated against the model (SearchLifecycleTrace.tla, per-goroutine event order) and repeated under the Go race detector.",
+         "Hook events H4 (build tag verif). Races are decided by the race detector on the driven schedules only.", "TLA+ concurrency model: TLC exhaustive check + trace validation of hook events + race detector", "5 C14"),
  "C15": ("model_checking", "Mirror(pos) of ChessRules.tla (TLC checks that it commutes with Apply and Legal) supplies the mirrored positions; at every node Evaluate is compared across FEN-built / path-built / mirrored position and fresh / reused evaluator, under the four combinations of the UCI evaluation options; insufficient positions must evaluate to 0.",
          "Evaluation numerics themselves are not specified, only the relations.", "TLA+ spec (Mirror, histories) + replay", "5 C15"),
  "C17": ("model_checking", "SanOf / SanMatches of ChessRules.tla (TLC invariant SanUnique) give the SAN components and the set of moves a SAN text denotes; every legal move of every tree node is rendered in UCI and five SAN decorations and parsed back; hint-stripped and illegal texts must give the unique match or no move.",
